@@ -6,7 +6,7 @@ src="$1"; id="$2"
 wt=/tmp/wt/confirm_$id
 git -C /repo worktree add -q "$wt" HEAD || exit 3
 mkdir -p "$wt/_mut/x"; cp "$src/demo.py" "$wt/_mut/x/demo.py"
-cd "$wt"
+cd "$wt"; export PYTHONPATH="$wt"
 /venv/bin/python -W ignore _mut/x/demo.py >/dev/null 2>&1; clean=$?
 if ! git apply "$src/patch.diff"; then echo "RESULT $id patch-does-not-apply"; cd /; git -C /repo worktree remove --force "$wt"; exit 1; fi
 /venv/bin/python -W ignore _mut/x/demo.py >/dev/null 2>&1; mutated=$?
